@@ -46,6 +46,11 @@ pub fn c01(t: &Trace, r: &mut Report) {
     let mut start = 0;
     let mut last_tick: Option<(u64, f32)> = None; // (state after, value)
     let mut prev_state = 0u64;
+    // the level each segment started from, taken from the *output* at the gate event (not from the
+    // implementation's own bookkeeping): an attack starts from the value being output when the gate-on arrived,
+    // a release from the value being output when the gate-off arrived
+    let mut on_lvl: Option<f64> = Some(0.0);
+    let mut off_lvl: Option<f64> = Some(0.0);
     for i in 0..t.ops.len() {
         let op = &t.ops[i];
         if op.is_empty() {
@@ -54,6 +59,9 @@ pub fn c01(t: &Trace, r: &mut Report) {
         if op[0] == "adsr" {
             start = i;
             last_tick = None;
+            on_lvl = Some(0.0);
+            off_lvl = Some(0.0);
+            prev_state = 0;
         }
         if op[0] != "adsr" && !matches!(op[0], "tick" | "gate_on" | "gate_off" | "set" | "setacc") {
             continue;
@@ -70,7 +78,19 @@ pub fn c01(t: &Trace, r: &mut Report) {
             r.fail(i, start, "range", format!("envelope value {} outside [0,1]", o.value));
         }
         match op[0] {
-            "gate_on" | "gate_off" | "setacc" => last_tick = None,
+            "gate_on" => {
+                last_tick = None;
+                if prev_state != 1 {
+                    on_lvl = Some(o.value as f64);
+                }
+            }
+            "gate_off" => {
+                last_tick = None;
+                if matches!(prev_state, 1 | 2 | 3) {
+                    off_lvl = Some(o.value as f64);
+                }
+            }
+            "setacc" => last_tick = None,
             "set" if op.get(1) == Some(&"s") => last_tick = None,
             "tick" => {
                 r.nt(h2(o.st, h2(o.acc >> 14, (o.value * 64.0) as u64)));
@@ -112,9 +132,9 @@ pub fn c01(t: &Trace, r: &mut Report) {
                 // curve fidelity in timed phases
                 let p = o.acc as f64 / P24;
                 let reference = match o.st {
-                    1 => Some(o.on as f64 + (1.0 - o.on as f64) * ca(p)),
+                    1 => on_lvl.map(|l| l + (1.0 - l) * ca(p)),
                     2 => Some(o.s as f64 + (1.0 - o.s as f64) * cd(p)),
-                    4 => Some(o.off as f64 * cd(p)),
+                    4 => off_lvl.map(|l| l * cd(p)),
                     _ => None,
                 };
                 if let Some(x) = reference {
